@@ -46,6 +46,13 @@ with ThreadPoolExecutor(int(__import__("os").environ.get("KV_JOBS", "14"))) as e
         print(('SILENT ' if not res else 'ALARM  '), rid, {k: (v['exit'] if isinstance(v, dict) else v) for k, v in res.items()}, flush=True)
 n = sum(1 for v in status.values() if not v)
 print(f'REFACTORINGS {n}/{len(status)} silent')
+if '--update' in sys.argv and args and os.path.isfile(f'{VERIF}/refactorings/STATUS.json'):
+    # a partial run: merge into the recorded status
+    old = json.load(open(f'{VERIF}/refactorings/STATUS.json'))
+    merged = {k: {} for k in old.get('silent', [])}
+    merged.update(old.get('residual_alarms', {}))
+    merged.update(status)
+    status = merged
 if '--update' in sys.argv:
     json.dump({'silent': sorted(k for k, v in status.items() if not v), 'residual_alarms': {k: v for k, v in sorted(status.items()) if v}},
               open(f'{VERIF}/refactorings/STATUS.json', 'w'), indent=1)
